@@ -72,6 +72,8 @@ type c14Problem struct {
 type c14Result struct {
 	Problems []c14Problem `json:"problems"`
 	Steps    int          `json:"steps"`
+	// LateCatchUps counts 200 ms waits beyond the expected completion event.
+	LateCatchUps int `json:"late_catch_ups"`
 	Checks   int          `json:"checks"`
 	Err      string       `json:"err"`
 }
@@ -270,6 +272,22 @@ func c14Worker(args []string) int {
 			prob(sig, fmt.Sprintf("served checkpoint has size %d, expected size %d on branch %s", got, wantSize, wantBranch.Name))
 		}
 	}
+	// await: the property bounds catching up by "a bounded number of poll
+	// intervals"; K complete cycles is the expectation, but only never catching
+	// up within the (much longer) safety deadline is a violation, so that a
+	// loaded machine cannot raise an alarm. The number of extra waits is reported.
+	await := func(addr string, l *c14Log, wantSize int, step int, what string, until time.Time) {
+		want := uni.Body(l.origin, uint64(wantSize), u.Main.Root(wantSize))
+		for time.Now().Before(until) {
+			code, body := get(addr, l.id)
+			if text, _, ok := uni.SplitNote(body); code == 200 && ok && text == want {
+				break
+			}
+			res.LateCatchUps++
+			time.Sleep(200 * time.Millisecond)
+		}
+		check(addr, l, wantSize, u.Main, step, what)
+	}
 	maxLen := 0
 	for _, s := range spec.Schedules {
 		if len(s) > maxLen {
@@ -329,8 +347,9 @@ func c14Worker(args []string) int {
 			if !waitCycles() {
 				res.Problems = append(res.Problems, c14Problem{Signature: "polling-stopped", What: fmt.Sprintf("%s/%s/%s step %d: some log was not polled %d more times within %s", spec.Mode, spec.Storage, spec.Feeder, k, K+1, deadline), Step: k})
 			}
+			until := time.Now().Add(deadline) // one deadline for the whole step
 			for _, l := range logs {
-				check(r.addr, l, cur(l, k), u.Main, k, fmt.Sprintf("after %d complete poll cycles following the growth", K))
+				await(r.addr, l, cur(l, k), k, fmt.Sprintf("after %d complete poll cycles following the growth and a further %s", K, deadline), until)
 			}
 		}
 		if spec.Fork {
@@ -392,8 +411,9 @@ func c14Worker(args []string) int {
 		}
 		res.Steps++
 		addr, done := step(k, "growth", 1)
+		until := time.Now().Add(40 * time.Second)
 		for _, l := range logs {
-			check(addr, l, cur(l, k), u.Main, k, "one feed cycle after a restart")
+			await(addr, l, cur(l, k), k, "one feed cycle after a restart (and a further 40 s)", until)
 		}
 		done()
 	}
@@ -509,6 +529,7 @@ func c14(tier string) int {
 			mu.Lock()
 			defer mu.Unlock()
 			checks += int64(r.Checks)
+			run.Add("waits_beyond_the_expected_completion_event", int64(r.LateCatchUps))
 			steps += int64(r.Steps)
 			run.Hist("scenarios", j.spec.Feeder+"/"+j.spec.Mode+"/"+j.spec.Storage)
 			for _, s := range j.spec.Schedules {
